@@ -299,9 +299,13 @@ pub fn format_filesize(size: u64, modifier: &str) -> String {
     let mut space = false;
 
     if let Some(cap) = FILE_SIZE_FORMAT_REGEX.captures(&modifier) {
-        zeroes = cap
-            .name("zeroes")
-            .map_or(-1, |m| m.as_str().parse::<i32>().unwrap());
+        // the formatter accepts at most u16::MAX decimal places
+        zeroes = cap.name("zeroes").map_or(-1, |m| {
+            match m.as_str().parse::<i32>() {
+                Ok(zeroes) if zeroes <= u16::MAX as i32 => zeroes,
+                _ => error_exit("Incorrect number of decimal places in file size format", m.as_str()),
+            }
+        });
         space = cap.name("space").map_or(false, |m| m.as_str() == " ");
         modifier = cap
             .name("units")
